@@ -2,6 +2,7 @@
 from __future__ import annotations
 
 import copy
+import os
 
 from mc import e1, refmodel as rm
 from mc.common import HarnessError, fmt_listing, flags_config, make_rule_doc
@@ -14,7 +15,7 @@ RULE = ("every item kind (plain mnemonic, mnemonic+operands, $and/$or/$not/$and_
         "bound (times:n for n in 0..N; {min,max} for 0<=min<=max<=N) in the spelling the grammar admits (inside the body "
         "for a plain mnemonic, sibling key otherwise) x 7 contexts (alone, after 'ret', before 'ret', between, and three where the neighbour can match the same instruction as the repeated item) x EVERY "
         "listing of length 0..L over a 3-instruction alphabet, so runs of 0..L repetitions all occur; oracle = reference "
-        "matcher (verdict, every reported span genuine and record-aligned); differential: times:n and the item written n "
+        "matcher (verdict, every reported span genuine and record-aligned); large-count family: times n / {min,max} for n up to 1001 on plain, $or, $not and $and items against runs of lo-1, lo, mid, hi, hi+1 repetitions (closed-form expectation); differential: times:n and the item written n "
         "times give identical result lists on every listing. Non-trivial = reference finds the rule or its first item "
         "matches somewhere.")
 ASSUMPTIONS = ["repeated items contain no capture-group definition (C05 scope)",
@@ -99,6 +100,53 @@ def all_rules(tier):
     return rules
 
 
+BIG = [9, 10, 11, 12, 31, 32, 33, 99, 100, 101, 255, 256, 999, 1000, 1001]
+
+
+def big_cases(tier):
+    """(item-with-times, lo, hi): large repetition counts, checked against runs of k = lo-1, lo, hi, hi+1 and a mid value"""
+    out = []
+    ns = BIG if tier == "thorough" else [9, 10, 11, 12, 33, 100, 101, 1000, 1001]
+    for n in ns:
+        out.append(({"mov": {"times": n}}, n, n))
+        out.append(({"$or": ["mov", "push"], "times": n}, n, n))
+        out.append(({"$not": ["ret"], "times": n}, n, n))
+    for lo, hi in ((0, 1000), (10, 12), (99, 101), (1, 1000), (999, 1001), (12, 12)):
+        out.append(({"mov": {"times": {"min": lo, "max": hi}}}, lo, hi))
+        out.append(({"$and": ["mov"], "times": {"min": lo, "max": hi}}, lo, hi))
+    return out
+
+
+def run_big(shard, tier, h, res, known):
+    """pattern [ret, X{lo,hi}, ret] on the listing ret mov^k ret: found iff lo <= k <= hi (specification, no reference matcher needed)"""
+    cases = big_cases(tier)
+    for ci in range(shard["lo"], len(cases), shard["n"]):
+        item, lo, hi = cases[ci]
+        pat = ["ret", item, "ret"]
+        doc = make_rule_doc(pat)
+        try:
+            mop = h.mop(doc)
+        except Exception as e:
+            res.evaluations += 1
+            res.fail({"clause": "compile", "family": "big", "rule": doc, "expected": "compiles", "observed": repr(e), "size": 1}, known)
+            continue
+        for k in sorted({max(0, lo - 1), lo, (lo + hi) // 2, hi, hi + 1}):
+            att = [("400000", "ret", [])] + [(f"{0x400001 + 3 * i:x}", "mov", ["%rax", "%rbx"]) for i in range(k)] + \
+                  [(f"{0x400001 + 3 * k:x}", "ret", [])]
+            path = h.write(f"big_{os.getpid()}.s", fmt_listing(att))
+            res.evaluations += 1
+            res.nontrivial += 1
+            want = lo <= k <= hi
+            try:
+                got = h.match(mop, path, only_addr=True)
+            except Exception as e:
+                got = repr(e)
+            exp = ["400000"] if want else []
+            if got != exp:
+                res.fail({"clause": "big-count", "family": "big", "rule": doc, "run_length": k, "expected": exp, "observed": got,
+                          "size": k}, known)
+
+
 def shards(tier):
     return e1.std_shards(tier, 32, 128)
 
@@ -108,6 +156,7 @@ def build_lsets(h, tier):
 
 
 def run_shard(shard, tier, h, res, known):
+    run_big(shard, tier, h, res, known)
     rules = all_rules(tier)
     lsets = e1.get_lsets(h, tier, build_lsets)
     e1.run_rules(h, res, known, rules, lsets, shard, prop=ID)
@@ -151,6 +200,14 @@ def controls(h):
 
 
 def replay(case, h):
+    if case.get("family") == "big":
+        k = case.get("run_length", 0)
+        att = [("400000", "ret", [])] + [(f"{0x400001 + 3 * i:x}", "mov", ["%rax", "%rbx"]) for i in range(k)] + [(f"{0x400001 + 3 * k:x}", "ret", [])]
+        try:
+            got = h.match(h.mop(case["rule"]), h.write("big_replay.s", fmt_listing(att)), only_addr=True)
+        except Exception as e:
+            return True, repr(e)
+        return got != case["expected"], f"got {got}"
     if case.get("clause") == "n-copies":
         att = [(a, m, list(o)) for a, m, o in case["listing"]]
         p = h.listing_file(fmt_listing(att))
